@@ -515,6 +515,33 @@ def group_units(units):
 
 # ---------------------------------------------------------------------------------------------
 
+def select_units(ctx, cases, conf_bad):
+    """Which (configuration, fixture kind) units are linted end to end in this tier."""
+    by_model = {m: [c for c in cases if c["model"] == m] for m, _ in MODELS}
+    if ctx.quick:
+        # invocations are the cost: sel shares two (-checks, -fail, exit) groups, tree / fail have one group per flag value
+        sel = cover_and_sample(ctx, by_model["sel"], 1200)
+        tree = cover_and_sample(ctx, by_model["tree"], 450, pairs=False) + cover_and_sample(ctx, by_model["broken"], 40, pairs=False)
+        fail = cover_and_sample(ctx, by_model["fail"], 120, pairs=False)
+        side, nbad = 150, 30
+    else:
+        # config.Load is bound on every configuration; end to end: every sel and broken configuration,
+        # a cover + large sample of tree and fail
+        sel = by_model["sel"]
+        tree = cover_and_sample(ctx, by_model["tree"], 15000) + by_model["broken"]
+        fail = cover_and_sample(ctx, by_model["fail"], 1500, pairs=False)
+        side, nbad = 1500, 300
+    units = [(c, "plain") for c in sel + tree + fail]
+    for k in ("ign", "mal", "unm"):
+        units += [(c, k) for c in vlib.sample(ctx, sel, side) + vlib.sample(ctx, tree, side)]
+    units += [(c, "ign") for c in fail]
+    units += [(c, k) for k in ("mal", "unm") for c in vlib.sample(ctx, fail, side)]
+    units += [(c, "bad") for c in vlib.sample(ctx, sel + tree + fail, nbad)]
+    have = {c["idx"] for c in sel + tree + fail}
+    units += [(c, "plain") for c in {c["idx"]: c for (c, _, _) in conf_bad}.values() if c["idx"] not in have]
+    return units, sel, tree, fail
+
+
 MODELS = [("sel", "MCChecks_sel.cfg"), ("tree", "MCChecks_tree.cfg"), ("broken", "MCChecks_broken.cfg"), ("fail", "MCChecks_fail.cfg")]
 LAWS = ["LawLastWins", "LawAppendExact", "LawInheritIdentity", "LawOverride", "LawCaseInsensitive",
         "LawNormalizeNeutral", "LawCategoryGlob", "LawPrintedExact", "LawExit", "FrameFail(action)",
@@ -596,31 +623,15 @@ def run(ctx):
     n_conf, conf_bad = confload_binding(ctx, helper, cases)
 
     # 3. end-to-end
-    by_model = {m: [c for c in cases if c["model"] == m] for m, _ in MODELS}
-    if ctx.quick:
-        # invocations are the cost: sel shares two (-checks, -fail, exit) groups, tree / fail have one group per flag value
-        sel = cover_and_sample(ctx, by_model["sel"], 1200)
-        tree = cover_and_sample(ctx, by_model["tree"], 450, pairs=False) + cover_and_sample(ctx, by_model["broken"], 40, pairs=False)
-        fail = cover_and_sample(ctx, by_model["fail"], 120, pairs=False)
-        side, nbad = 150, 30
-    else:
-        sel, tree, fail = by_model["sel"], by_model["tree"] + by_model["broken"], by_model["fail"]
-        side, nbad = 4000, 400
-    units = [(c, "plain") for c in sel + tree + fail]
-    for k in ("ign", "mal", "unm"):
-        units += [(c, k) for c in vlib.sample(ctx, sel, side) + vlib.sample(ctx, tree, side)]
-    units += [(c, "ign") for c in fail]
-    units += [(c, k) for k in ("mal", "unm") for c in vlib.sample(ctx, fail, side)]
-    units += [(c, "bad") for c in vlib.sample(ctx, sel + tree + fail, nbad)]
-    have = {c["idx"] for c in sel + tree + fail}
-    units += [(c, "plain") for c in {c["idx"]: c for (c, _, _) in conf_bad}.values() if c["idx"] not in have]
+    units, sel, tree, fail = select_units(ctx, cases, conf_bad)
     groups = group_units(units)
 
     pool = Pool(os.path.join(ctx.tmp("pool"), "m"), lanes)
     baseline = take_baseline(ctx, helper, "", pool, "inproc")
     others = ["text", "stylish", "sarif"]
     njobs, nunits, mism, jb = execute(ctx, helper, "", pool, baseline, groups,
-                                      lambda gi: ["json", others[gi % 3]], "inproc", "in-process")
+                                      lambda gi: ["json", others[gi % 3]] if (ctx.quick or gi % 2 == 0) else ["json"],
+                                      "inproc", "in-process")
     report(ctx, mism, "in-process")
 
     # config.Load disagreements: a violation if the end-to-end run of the same configuration fails too
@@ -654,7 +665,9 @@ def run(ctx):
         "states": sum(v["states"] for v in per_model.values()),
         "transitions": sum(v["transitions"] for v in per_model.values()),
         "traces_validated_against_impl": n_conf + nunits + bunits,
-        "exhaustive": not ctx.quick,
+        "exhaustive": False,
+        "exhaustive_parts": (["config.Load on every enumerated configuration"] +
+                             ([] if ctx.quick else ["end-to-end lint of every configuration of the sel and broken models (fixture kind plain)"])),
         "tlc": {"module": "MCChecks", "models": per_model, "invariants": LAWS},
         "distinct_configurations": len(cases),
         "documentation_examples_checked_on_spec": n_doc,
